@@ -46,13 +46,19 @@ PROP = dict(
         "decoder for trees that are valid dictionaries",
     ],
     partial=[
-        "proof_boc goes through the model of the WHOLE Go writer (C01.roundtrip_go_writer: importCell/reorderCells order "
-        "= C01.order_valid, header arithmetic, C07 reader). Two premises remain: a table presentation of the proof's "
-        "in-memory cells exists (agent boc's roundtrip_cell / Cell.toTable discharges it) and C01's KeyInjOn (the "
-        "de-duplication key - the hex representation hash - separates structurally different rows: collision-freedom). "
-        "proof_boc_layout is the weaker statement for an arbitrary given layout",
+        "proof_boc_collisionFree has NO premise about the writer left: hypotheses are H32 (true of the real SHA-256: "
+        "h32_sha256), CollisionFree H on the finite list Spec.allReprs H proof (the named idealisation of the hash "
+        "function), CellOK of the ORIGINAL tree (within the BOC format limits; exotic cells start with their type "
+        "byte) and the size bounds of C01.roundtrip_go_writer. The presentation is agent boc's Order.cellTable proof "
+        "(valid layout proved: structural depth <= 1024 because hashing accepted the proof) and KeyInjOn for Go's "
+        "key is derived from C02.reprHash_inj_wfExotic (covers mask-1 cells and pruned branches). proof_boc (any "
+        "presentation + KeyInjOn as hypotheses) and proof_boc_layout (any given layout) are the weaker forms",
+        "the writer model is C01's (Order.serializeBocModel); its tie to boc.SerializeBoc is C01's correspondence, and "
+        "the correspondence of this property compares the PARSED real proof bytes with the model's cell on every run",
         "prove_no_panic needs noSingleRef (no cell with exactly one ref): on a malformed fork with one ref "
         "ProveKeyInHashmap panics in Cursor.Ref(1) (modelled, compared; outside 'all dictionaries')",
+        "fifthex_key_compare is a stand-alone justification of modelling the ToFiftHex comparison as bit equality; "
+        "proveKey itself compares bit lists",
     ],
     level="proof",
     level_text="Theorems for ALL supported trees, ALL prune sets (any predicate on positions, root included) and every "
@@ -70,9 +76,10 @@ PROP = dict(
                "pruned); prove_no_panic; walk_fuel_sufficient (the model's fuel is never exhausted, so errors are genuine); fifthex_key_compare; value_revealed_dict / absent_key_errors_dict - the same in terms of agent dict's model "
                "(C05): for the cell tree of ANY valid TON dictionary of any key width, the library's Hashmap decoder on the "
                "proof's child returns exactly [(key, val)] with get key of the dictionary's meaning = some val, and an "
-               "absent key gets no proof; proof_boc - the bytes written for the proof (agent boc's writer model, C01) "
-               "parse back (C07 reader) to a table whose root is the Merkle-proof cell `03 hash0 depth0` and whose "
-               "table hashing gives the definition's hashes. Tie, on every run: value bits and canonical table of the parsed proof bytes vs "
+               "absent key gets no proof; proof_boc_collisionFree - under collision-freedom of H on the proof's representations, the bytes the model of "
+               "the WHOLE Go writer (C01: importCell/reorderCells order keyed by the representation hash, header) writes "
+               "for the proof parse back (C07 reader) to a table whose single root unfolds to the proof, is the "
+               "Merkle-proof cell `03 hash0 depth0`, and whose table hashing gives the definition's hashes. Tie, on every run: value bits and canonical table of the parsed proof bytes vs "
                "the compiled model for every generated (dictionary, key) and (tree, path set); direct oracles on Go "
                "alone with the hash DEFINITION: committed hash/depth = original root's, child level-0 hash = committed, "
                "every pruned branch stores hash/depth of what it replaces, kept cells unchanged, WFExotic, value "
